@@ -713,7 +713,9 @@ class HtmlWriter:
                 external_ref = entry != reference.entry
                 link_io = self.link_internal_operands and abs(instruction.address - reference.address) >= self.lio_min_distance
                 if asm_label or external_ref or link_io:
-                    if self.asm_single_page:
+                    if self.asm_single_page and reference.entry.asm_id:
+                        href = self._asm_relpath(cwd, reference.address, reference.entry.asm_id)
+                    elif self.asm_single_page:
                         href = '#{}'.format(self.asm_anchor(reference.address))
                     else:
                         entry_address = reference.entry.address
